@@ -174,6 +174,29 @@ fn check_ops(a: Iv, b: Iv, scalars: &[f64], ctx: &mut Ctx) -> PResult {
                 return fail("C16/scale/not-enclosed", format!("{x} in {a:?}, but {c}*{x} = {} is outside {c}*{a:?} = {r:?}", q_to_f64(&v)));
             }
         }
+        // the compound-assignment forms are the same operations
+        {
+            let mut m = ba;
+            m *= *c;
+            if m != r {
+                return fail("C16/scale/assign-form-differs", format!("b = {a:?}; b *= {c} gives {m:?}, b * {c} gives {r:?}"));
+            }
+            let mut m2 = ba;
+            m2 *= bb;
+            if m2 != p {
+                return fail("C16/mul/assign-form-differs", format!("b = {a:?}; b *= {b:?} gives {m2:?}, the product is {p:?}"));
+            }
+            let mut m3 = ba;
+            m3 += bb;
+            if m3 != s {
+                return fail("C16/add/assign-form-differs", format!("b = {a:?}; b += {b:?} gives {m3:?}, the sum is {s:?}"));
+            }
+            let mut m4 = ba;
+            m4 += *c;
+            if m4 != ba + *c {
+                return fail("C16/shift/assign-form-differs", format!("b = {a:?}; b += {c} gives {m4:?}, b + {c} gives {:?}", ba + *c));
+            }
+        }
         let r = ba + *c;
         if !valid(&r) {
             return fail("C16/shift/invalid-interval", format!("{a:?} + {c} = {r:?}"));
@@ -182,6 +205,25 @@ fn check_ops(a: Iv, b: Iv, scalars: &[f64], ctx: &mut Ctx) -> PResult {
             let v = q(*x) + q(*c);
             if !contains(&r, &v, rel.max(if dyadicish(*c) { 0.0 } else { 1e-9 })) {
                 return fail("C16/shift/not-enclosed", format!("{x} in {a:?}, but {x}+{c} = {} is outside {a:?}+{c} = {r:?}", q_to_f64(&v)));
+            }
+        }
+    }
+    // moving an end: a request that would invert the interval (or NaN) is refused and leaves a valid, unchanged
+    // interval behind; an accepted request moves exactly that end
+    for (v, lower_end) in [(b.0, true), (b.1, true), (b.0, false), (b.1, false), (f64::NAN, true), (f64::NAN, false)] {
+        let mut m = ba;
+        let r = if lower_end { m.set_lower(v) } else { m.set_upper(v) };
+        match r {
+            Err(_) => {
+                if m != ba {
+                    return fail("C16/setter/refused-but-modified", format!("{}({v}) on {a:?} was refused but left {m:?} behind", if lower_end { "set_lower" } else { "set_upper" }));
+                }
+            }
+            Ok(()) => {
+                let want = if lower_end { (v, a.1) } else { (a.0, v) };
+                if !valid(&m) || m.lower() != want.0 || m.upper() != want.1 {
+                    return fail("C16/setter/accepted-wrong-result", format!("{}({v}) on {a:?} gives {m:?}", if lower_end { "set_lower" } else { "set_upper" }));
+                }
             }
         }
     }
